@@ -63,7 +63,9 @@ func ShardedBin(bin, group string, n int, runItem func(i int) ItemResult) ([]Ite
 			if err != nil {
 				break
 			}
-			fmt.Fprintf(os.Stderr, "VX-ITEM %d\n", i)
+			if group != "1" {
+				fmt.Fprintf(os.Stderr, "VX-ITEM %d\n", i)
+			}
 			r := runItem(i)
 			r.Index = i
 			b, _ := json.Marshal(r)
